@@ -273,15 +273,20 @@ Proof.
 Qed.
 
 (** * Prototype children and [lookup_prefix] *)
+Lemma Forall2_ins_filter_elem l l' :
+  Forall2 ins l l' -> Forall2 ins (filter is_element l) (filter is_element l').
+Proof.
+  intros H. induction H as [|c c' r r' Hcc Hr IH]; cbn; [constructor|].
+  rewrite (ins_is_element _ _ Hcc). destruct (is_element c); [constructor; assumption|assumption].
+Qed.
+
 Lemma ins_prototype_children n n' :
   ins n n' -> has_tag_name PROTOTYPE n = true ->
   Forall2 ins (filter is_element (children n)) (filter is_element (children n')).
 Proof.
   intros H Hp. pose proof (ins_children _ _ H) as Hc.
   destruct n as [nm a sc ch|t|t|t v]; try discriminate. cbn in Hp. cbn [local_name] in Hc. rewrite Hp in Hc.
-  apply ins_list_proto in Hc. cbn [children] in *.
-  induction Hc as [|c c' r r' Hcc Hr IH]; cbn; [constructor|].
-  rewrite (ins_is_element _ _ Hcc). destruct (is_element c); [constructor; assumption|assumption].
+  apply ins_list_proto in Hc. apply Forall2_ins_filter_elem. exact Hc.
 Qed.
 
 (** * Combinators of the model *)
